@@ -24,7 +24,7 @@ pub fn special_seed(g: &mut Gen, n_chains: usize) -> u64 {
         0 => 0,
         1 => 1,
         2 => 1u64 << 32,
-        3 => 1u64 << 63,
+        3 => (1u64 << 63).wrapping_add(g.range(0, 2 * n_chains as u64 + 4)).wrapping_sub(n_chains as u64 + 2),
         4 | 5 => u64::MAX - g.range(0, n_chains as u64 + 1),
         // next to a constant the sources themselves use in seed arithmetic (source-literal dictionary)
         6 | 7 => crate::core::dict_seed(g, n_chains as u64 + 3),
